@@ -3,9 +3,9 @@ argument conversion, request reading, spec matching, behavioural fingerprints.""
 import datetime
 import decimal
 
-import iface as IF
-import wsdlkit
-import xmlread
+from harness import iface as IF
+from harness import wsdlkit
+from harness import xmlread
 
 
 def make_client(docs, **kw):
@@ -28,6 +28,8 @@ def to_arg(client, I, ttype, value, mode="dict"):
         return [to_arg(client, I, ttype, v, mode) for v in value]
     if ttype[0] == "b":
         return value
+    if ttype[0] == "a":
+        return [to_arg(client, I, I["arrays"][ttype[1]], v, mode) for v in value["__array__"]]
     key = ttype[1]
     real = value.get("__type__", key)
     members = {m["name"]: m for m, _, _ in IF.members_of(I, real)}
@@ -122,6 +124,12 @@ def match(spec, node, path="", out=None):
             continue
         g = got.pop(k)
         if isinstance(v, dict):
+            dim = ""
+            if "dim" in v:
+                g, _, dim = g.partition("[")
+                dim = "[" + dim
+                if dim != v["dim"]:
+                    out.append("%s: attribute %r dimension %r expected %r" % (here, k, dim, v["dim"]))
             try:
                 q = xmlread.resolve_qname(node, g)
             except xmlread.XmlError as e:
